@@ -7,7 +7,7 @@ path is collected into `run.trusted` and ends up in the evidence of the property
 import z3
 
 from . import sym, lemmas
-from .sym import (SV, SNum, SBool, SKey, SVal, SFn, SDict, SSet, SList, STuple, SObj, NONE, TInt, TNum, TNumK, SNDArray, TNDArray,
+from .sym import (SV, SNum, SBool, SKey, SVal, SFn, SDict, SSet, SList, STuple, SObj, NONE, TInt, TNum, TNumK, SNDArray, TNDArray, SOutArr, TOutArr,
                   TBool, TKey, TVal, TFn, TDict, TSet, TList, TTuple, TObj, pack, snapshot, fresh_name)
 
 
@@ -58,7 +58,63 @@ IS_NUM = z3.Function('is_num_key', sym.KeyS, z3.BoolSort())
 MMAX = {}
 
 
+_FLOAT_PROBE = None
+
+
+def float_of_size1_array_ok():
+    """library contract probed on the installed NumPy: does float() accept a size-one array with ndim > 0?"""
+    global _FLOAT_PROBE
+    if _FLOAT_PROBE is None:
+        import warnings
+        import numpy as np
+        with warnings.catch_warnings():
+            warnings.simplefilter('error')
+            try:
+                float(np.array([1.0]))
+                _FLOAT_PROBE = True
+            except Exception:   # noqa
+                _FLOAT_PROBE = False
+    return _FLOAT_PROBE
+
+
+STRNUM = z3.Function('float_of_str', sym.KeyS, z3.RealSort())
+IS_NUMSTR = z3.Function('is_numeric_str', sym.KeyS, z3.BoolSort())
+
+
+def float_of(run, a):
+    sx = _sx()
+    if isinstance(a, SOutArr):
+        ok1 = float_of_size1_array_ok()
+        run.trusted.add(f"library contract (probed on the installed NumPy): float(ndarray) succeeds iff ndim == 0"
+                        + (" or size == 1" if ok1 else ""))
+        conv = a.ndim == 0 if not ok1 else z3.Or(a.ndim == 0, a.size == 1)
+        run.may_raise(z3.Not(conv), 'TypeError', 'only 0-dimensional arrays can be converted to Python scalars')
+        run.may_raise(a.isstr, 'ValueError', 'could not convert string to float')
+        return SNum(z3.simplify(a.data[0]))
+    if isinstance(a, SKey):
+        run.may_raise(z3.Not(IS_NUMSTR(a.t)), 'ValueError', 'could not convert string to float')
+        return SNum(STRNUM(a.t))
+    if isinstance(a, (SDict, SList)) or a is NONE:
+        raise sx.PyRaise('TypeError', 'float() argument must be a string or a real number')
+    return None
+
+
 def load_item(run, c, k):
+    if isinstance(c, SOutArr):
+        # element of a 1-d array / row of a 2-d array
+        if not isinstance(k, SNum) or not k.is_int:
+            raise _sx().Unsupported("ndarray index")
+        i = k.t
+        run.may_raise(c.ndim == 0, 'IndexError', 'too many indices for array')
+        run.may_raise(z3.Or(i >= c.d0, i < -c.d0), 'IndexError')
+        i = z3.simplify(z3.If(i < 0, i + c.d0, i))
+        if z3.is_true(z3.simplify(c.ndim == 1)):
+            return SNum(z3.simplify(c.data[i]), np=z3.BoolVal(True))
+        sh = z3.Const(fresh_name('row'), z3.ArraySort(z3.IntSort(), z3.RealSort()))
+        j = z3.Int(fresh_name('rj'))
+        run.assume(sym.forall([j], sh[j] == c.data[i * c.d1 + j], [sh[j]]))
+        # ndim 1 -> a 0-d element; ndim 2 -> the i-th row
+        return SOutArr(TOutArr, TOutArr.mk(c.ndim - 1, z3.If(c.ndim == 2, c.d1, 1), z3.IntVal(1), sh, c.isstr))
     if isinstance(c, SNDArray):
         idx = run.index(c, k)
         return SNum(z3.simplify(c.arr[idx]), np=z3.BoolVal(True), fin=z3.Not(c.nan[idx]))
@@ -178,6 +234,10 @@ def call_module(run, path, args, kwargs, node):
         raise sx.Unsupported(name + " called")
     if name in ('numpy.array', 'numpy.asarray'):
         return np_array(run, args[0])
+    if name in ('numpy.ndim', 'numpy.size') and len(args) == 1 and isinstance(args[0], SOutArr):
+        return SNum(args[0].ndim if name == 'numpy.ndim' else args[0].size)
+    if name in ('numpy.asarray', 'numpy.array') and len(args) == 1 and isinstance(args[0], SOutArr):
+        return args[0]
     if name in ('numpy.nanmean', 'numpy.nanvar', 'numpy.nanstd'):
         return np_nanstat(run, name.split('.')[1], args[0])
     raise sx.Unsupported(f"line {run.cur_line}: library function {name}")
@@ -298,6 +358,8 @@ def i_key(i):
 
 def np_array(run, x):
     sx = _sx()
+    if isinstance(x, SOutArr):
+        return x
     if isinstance(x, SList) and x.typ.e in (TNum,):
         nan = getattr(x, 'nan_mask', None)
         if nan is None:
@@ -363,6 +425,9 @@ def call_builtin(run, name, args, kwargs, node):
         return SNum(z3.If(a.t >= 0, a.t, -a.t), a.np, a.fin)
     if name == 'float':
         a = args[0]
+        r = float_of(run, a)
+        if r is not None:
+            return r
         if isinstance(a, SNum):
             return SNum(a.real(), None if a.np is None else z3.BoolVal(False), a.fin)
         raise sx.Unsupported("float of " + repr(a))
@@ -685,6 +750,12 @@ def call_method(run, recv, name, args, kwargs, node):
         if name == 'append':
             recv.items.append(args[0])
             return NONE
+    if isinstance(recv, SOutArr):
+        if name == 'flatten':
+            return SOutArr(TOutArr, TOutArr.mk(z3.IntVal(1), recv.size, z3.IntVal(1), recv.data, recv.isstr))
+        if name == 'reshape' and len(args) == 1 and isinstance(args[0], STuple) and not args[0].items:
+            run.may_raise(recv.size != 1, 'ValueError', 'cannot reshape array into shape ()')
+            return SOutArr(TOutArr, TOutArr.mk(z3.IntVal(0), z3.IntVal(1), z3.IntVal(1), recv.data, recv.isstr))
     if isinstance(recv, SObj):
         raise sx.Unsupported(f"method {recv.cls}.{name} without a contract")
     hook = run.opts.extra.get('method')
